@@ -74,7 +74,11 @@ func (p *VipnodePool) CloseRemote(remote jsonrpc2.Service) error {
 	}
 
 	delete(p.remoteNodeLookup, remote)
-	delete(p.remoteHosts, nodeID)
+	if p.remoteHosts[nodeID] == remote {
+		// Only forget the host if it didn't register on a newer connection in
+		// the meantime.
+		delete(p.remoteHosts, nodeID)
+	}
 
 	return nil
 }
